@@ -1041,6 +1041,58 @@ def n32_canonical_loops(pieces, file, applied):
         applied.add("N32", file, line, f"loop {{ if {cond} {{ break; }} .. }} -> while !({cond}) {{ .. }}")
 
 
+def n37_unnegate_if(pieces, file, applied):
+    """N37: `if !C { X } else { Y }` -> `if C { Y } else { X }` (C a parenthesised expression, or a path / field / call chain
+    without a binary operator at depth 0; the `else` is a plain block, not `else if`; not `if let`).  The same program; the
+    templates number the loops of a function and anchor hints on statements, so which branch comes first matters to them:
+    flipping an if / else by negating its condition is an everyday edit and must not disturb that."""
+    BIN = {"&&", "||", "==", "!=", "<", ">", "<=", ">=", "+", "-", "*", "/", "%", "|", "&", "^", "as", "let", "=", "..", "..="}
+    while True:
+        si = sig(pieces)
+        hit = None
+        for k in range(len(si) - 6):
+            if not (pieces[si[k]].text == "if" and pieces[si[k]].tkind == "ident" and pieces[si[k + 1]].text == "!"):
+                continue
+            if k > 0 and pieces[si[k - 1]].text == "else":
+                continue       # an `else if` chain is left alone
+            d = 0
+            j = k + 2
+            ok = True
+            while j < len(si):
+                t = pieces[si[j]]
+                if t.tkind == "punct" and t.text in "([":
+                    d += 1
+                elif t.tkind == "punct" and t.text in ")]":
+                    d -= 1
+                elif d == 0 and t.text == "{":
+                    break
+                elif d == 0 and t.text in BIN:
+                    ok = False
+                j += 1
+            if not ok or j >= len(si) or j == k + 2:
+                continue
+            xo = j
+            xc = _pmatch(pieces, si, xo, None)
+            if xc + 2 >= len(si) or pieces[si[xc + 1]].text != "else" or pieces[si[xc + 2]].text != "{":
+                continue
+            yo = xc + 2
+            yc = _pmatch(pieces, si, yo, None)
+            hit = (k, xo, xc, yo, yc)
+            break
+        if hit is None:
+            return
+        k, xo, xc, yo, yc = hit
+        line = pieces[si[k]].line
+        cond = "".join(pieces[i].text for i in range(si[k + 2], si[xo - 1] + 1) if not pieces[i].dead).strip()
+        bang = si[k + 1]
+        X = pieces[si[xo]:si[xc] + 1]
+        mid = pieces[si[xc] + 1:si[yo]]
+        Y = pieces[si[yo]:si[yc] + 1]
+        pieces[si[xo]:si[yc] + 1] = Y + mid + X
+        pieces[bang].dead = True
+        applied.add("N37", file, line, f"if !{cond} {{ X }} else {{ Y }} -> if {cond} {{ Y }} else {{ X }}")
+
+
 def n33_canonical_local(pieces, name, pat_s, file, applied):
     """N33: alpha-renaming of a local.  `//@ local NAME "pattern with $#X"`: the pattern locates the binding of a local
     (once); every identifier token of the item equal to the captured name - except after `.` / `::` (fields, methods,
@@ -1834,6 +1886,7 @@ class Generator:
             n2_logging(pieces, file, self.applied)
         if loc["kind"] == "fn":
             n32_canonical_loops(pieces, file, self.applied)
+            n37_unnegate_if(pieces, file, self.applied)
         for (nm, pat) in opts.get("locals", []):
             n33_canonical_local(pieces, nm, pat, file, self.applied)
         if "params" in opts and loc["kind"] == "fn":
